@@ -347,8 +347,16 @@ def run_history(ctx, d, case):
                         with open(os.path.join(dp, 'Manifest'), 'w') as f:
                             f.write('DIST pre-%d.tar 1 MD5 %s\n' % (n, 'ab' * 16))
                         n += 1
+        sign_args = []
+        if case.get('signed'):
+            # a signed tree (as the real repository is): later updates re-sign it
+            from vf.checks import c19
+            from vf.fixtures import keys
+            os.environ['GNUPGHOME'] = c19.sign_home().dir
+            sign_args = ['-s', '-k', keys.KEY_ID]
+            ctx.count('signed_histories')
         for r in (rootA, rootB):
-            rc = cli(['create', '--hashes', hashes, '-t', r])
+            rc = cli(['create', '--hashes', hashes, '-t'] + sign_args + [r])
             if rc != 0:
                 ctx.count('harness_error')
                 ctx.extra.setdefault('harness_errors', []).append('create: %r' % (rc,))
@@ -468,6 +476,7 @@ def run_history(ctx, d, case):
                 return
     finally:
         set_tz(old_tz)
+        os.environ.pop('GNUPGHOME', None)
 
 
 def run_hist(u, ctx):
@@ -484,6 +493,10 @@ def run_hist(u, ctx):
                            for _ in range(rng.randint(1, 6 if ctx.tier == 'thorough'
                                                       else 4))]}
         if case['past_ts']:
+            case['future_ts'] = 0
+        if rng.random() < 0.12:
+            case['signed'] = True
+            case['past_ts'] = None
             case['future_ts'] = 0
         with common.Scratch('vf-c11-') as d:
             run_history(ctx, d, case)
